@@ -10,7 +10,7 @@ CONSTANTS
   MaxOps = 2
   MaxSnaps = 1
   MaxRestarts = 1
-INVARIANTS NoTombLive GroupsFine EpochsFine FlagsConsistent
+INVARIANTS NoTombLive GroupsValid GroupsFine EpochsFine FlagsConsistent
 
 
 CHECK_DEADLOCK FALSE
